@@ -95,8 +95,25 @@ func runC10(c *Ctx) {
 				cfg.Depth = 2
 			}
 		}
+		// finding D18: a batch update naming an unlisted rule updates the adapter for the listed ones and then
+		// rolls memory back; finding D12: UpdateFilteredPolicies whose filter matches nothing adds the new rules
+		// and reports false. After either the adapter and memory are known to differ: comparisons stop.
+		tainted := false
 		cfg.AfterStep = func(c *Ctx, s *Sess, hist []EOp, obs string) {
 			last := hist[len(hist)-1]
+			if len(hist) == 1 {
+				tainted = false
+			}
+			if (last.Kind == "upds" || last.Kind == "updf") && obs == "false" {
+				tainted = true
+			}
+			if last.Kind == "load" || last.Kind == "save" {
+				tainted = false // memory and adapter are one again
+			}
+			if tainted {
+				c.Count("comparisons_skipped_findings_D12_D18", 1)
+				return
+			}
 			if !autosave {
 				// the adapter must be untouched until SavePolicy
 				touched := false
